@@ -246,3 +246,91 @@ def search_for_while(drv, rng, budget):
                         "input": {"width": w, "init": init, "exit_at": e, "program": src},
                         "op": ["run", hx(src), hx(""), hx(""), "0"], "expected": "ok", "observed": got}
     return None
+
+
+# ---------------------------------------------------------------- C10 scoping / shadowing
+class ScopeGen:
+    """Random straight-line programs over u8 with nested blocks, shadowing lets, tuple/array/ignore patterns and
+    match arms, together with a reference evaluation by a Python environment (innermost, most recent binding wins)."""
+    def __init__(self, rng):
+        self.rng = rng
+        self.names = ["a", "b", "c", "d"]
+        self.lit = 0
+
+    def fresh_lit(self):
+        self.lit = (self.lit * 7 + 11) % 251
+        return self.lit
+
+    def expr(self, env, depth):
+        """returns (text, value) of a u8 expression"""
+        r = self.rng.random()
+        vis = list(env.keys())
+        if vis and r < 0.45:
+            x = self.rng.choice(vis)
+            return x, env[x]
+        if depth > 0 and r < 0.75:
+            return self.block(env, depth - 1)
+        if depth > 0 and r < 0.85 and vis:
+            # match on a bool literal: only the taken arm's bindings matter, arms see the outer env
+            x = self.rng.choice(vis)
+            l, lv = self.expr(dict(env), depth - 1)
+            rr, rv = self.expr(dict(env), depth - 1)
+            cond = self.rng.random() < 0.5
+            return "match %s { true => %s, false => %s, }" % ("true" if cond else "false", l, rr), (lv if cond else rv)
+        v = self.fresh_lit()
+        return str(v), v
+
+    def block(self, env, depth):
+        inner = dict(env)
+        stmts = []
+        for _ in range(self.rng.randint(1, 3)):
+            stmts.append(self.let(inner, depth))
+        e, v = self.expr(inner, depth)
+        return "{ " + " ".join(stmts) + " " + e + " }", v
+
+    def let(self, env, depth):
+        """emit a let; updates env AFTER evaluating the right-hand side (rhs sees only earlier bindings)"""
+        k = self.rng.random()
+        if k < 0.5:
+            x = self.rng.choice(self.names)
+            e, v = self.expr(env, depth)
+            env[x] = v
+            return "let %s: u8 = %s;" % (x, e)
+        if k < 0.8:
+            xs = self.rng.sample(self.names, 2)
+            e1, v1 = self.expr(env, depth); e2, v2 = self.expr(env, depth)
+            if self.rng.random() < 0.3:
+                env[xs[0]] = v1
+                return "let (%s, _): (u8, u8) = (%s, %s);" % (xs[0], e1, e2)
+            env[xs[0]] = v1; env[xs[1]] = v2
+            return "let (%s, %s): (u8, u8) = (%s, %s);" % (xs[0], xs[1], e1, e2)
+        xs = self.rng.sample(self.names, 3)
+        es = [self.expr(env, depth) for _ in range(3)]
+        for x, (_, v) in zip(xs, es):
+            env[x] = v
+        return "let [%s, %s, %s]: [u8; 3] = [%s, %s, %s];" % (xs[0], xs[1], xs[2], es[0][0], es[1][0], es[2][0])
+
+    def program(self):
+        env = {}
+        lines = []
+        for _ in range(self.rng.randint(2, 6)):
+            lines.append("    " + self.let(env, 2))
+        for x, v in env.items():
+            lines.append("    assert!(jet::eq_8(%s, %d));" % (x, v))
+        # a function body sees only its parameters
+        fn = "fn pick(a: u8, b: u8) -> u8 { let c: u8 = a; b }\n"
+        if "a" in env and "b" in env:
+            lines.append("    assert!(jet::eq_8(pick(%d, %s), %d));" % (7, "b", env["b"]))
+        return fn + "fn main() {\n" + "\n".join(lines) + "\n}\n"
+
+
+@searcher("lookup/")
+def search_scoping(drv, rng, budget):
+    for n in range(min(budget, 1500)):
+        g = ScopeGen(rng)
+        src = g.program()
+        got = drv.call("run", hx(src), hx(""), hx(""), "0")
+        if got != "ok":
+            return {"call": "CompiledProgram::new + Bit Machine on a shadowing program", "input": {"program": src},
+                    "op": ["run", hx(src), hx(""), hx(""), "0"], "expected": "ok", "observed": got}
+    return None
